@@ -246,6 +246,22 @@ pub fn space(thorough: bool) -> Vec<Case> {
             out.extend(contexts(l, t));
         }
     }
+    // an explicit tag that equals the universal tag the type has anyway ([UNIVERSAL 2] INTEGER) is still an explicit tag:
+    // one leaf of every builtin kind
+    let mut kinds_seen = std::collections::BTreeSet::new();
+    for l in ls.iter() {
+        if matches!(l.1, Ty::Ref(_)) {
+            continue;
+        }
+        let own = vcore::refper::universal_tag(&Module::new("X"), &l.1);
+        if kinds_seen.insert(own) {
+            let mut cs = contexts(l, Some(own));
+            for c in cs.iter_mut() {
+                c.label = format!("own-universal-tag/{}", c.label);
+            }
+            out.extend(cs);
+        }
+    }
     out.extend(module_level_cases());
     out.extend(depth2_cases());
     out
